@@ -664,7 +664,7 @@ func propC06(w *World, r *Report, tier string) {
 		r.Expect("step.zuc", 4)
 		r.Expect("drv.snow3g", 3)
 		r.Expect("drv.zuc", 3)
-		r.Expect("drv.callers", 10)
+		r.Expect("drv.callers", 1)
 		r.Expect("pure.no-state", 6)
 		r.Expect("iv.nea", 3)
 		r.Expect("out.nea", 29)
